@@ -3,7 +3,10 @@ use crate::app::parse::options::ParseOptions;
 use crate::link::reader::LinkModes;
 use crate::link::LinkErrorMode;
 use crate::outstation::task::OutstationTask;
-use crate::outstation::{ControlHandler, OutstationApplication, OutstationConfig, OutstationHandle, OutstationInformation};
+use crate::outstation::{
+    ControlHandler, OutstationApplication, OutstationConfig, OutstationHandle,
+    OutstationInformation,
+};
 use crate::util::phys::{PhysAddr, PhysLayer};
 use crate::util::session::{Enabled, RunError};
 
@@ -18,7 +21,11 @@ pub fn create_outstation(
     information: Box<dyn OutstationInformation>,
     control_handler: Box<dyn ControlHandler>,
 ) -> (OutstationProbe, OutstationHandle) {
-    let modes = LinkModes::stream(if discard { LinkErrorMode::Discard } else { LinkErrorMode::Close });
+    let modes = LinkModes::stream(if discard {
+        LinkErrorMode::Discard
+    } else {
+        LinkErrorMode::Close
+    });
     let (task, handle) = OutstationTask::create(
         Enabled::Yes,
         modes,
@@ -29,7 +36,12 @@ pub fn create_outstation(
         information,
         control_handler,
     );
-    (OutstationProbe { task: Box::new(task) }, handle)
+    (
+        OutstationProbe {
+            task: Box::new(task),
+        },
+        handle,
+    )
 }
 
 impl OutstationProbe {
